@@ -18,6 +18,7 @@ package common
 import (
 	"bytes"
 	"fmt"
+	"io"
 	"net"
 
 	"github.com/enfein/mieru/v3/apis/model"
@@ -62,6 +63,10 @@ func (w *UDPAssociateWrapper) ReadFrom(p []byte) (n int, addr net.Addr, err erro
 	}
 
 	n, err = r.Read(p)
+	if err == io.EOF {
+		// The UDP packet has an empty payload.
+		err = nil
+	}
 	// Caller may expect the returned address to be *net.UDPAddr.
 	addr = &net.UDPAddr{
 		IP:   destination.IP,
